@@ -87,9 +87,10 @@ def runSearch (j : Json) : R (Json × Json) := do
       let mn ← getOptInt q "mincount"
       let mx ← getOptInt q "maxcount"
       -- the value `"<ANY>"` stands for an object that compares equal to everything: it selects exactly the nodes that
-      -- HAVE the attribute (every stored value is read as that token for this query)
+      -- HAVE the attribute (every stored value is read as that token for this query) - except a stored `"<VER>"`, whose own
+      -- `__eq__` is asked first and raises AttributeError on a foreign operand (swallowed: no match)
       let attr : Tree Nat → String → Option String :=
-        if value == "\"<ANY>\"" then (fun n nm => (attr n nm).map (fun _ => value))
+        if value == "\"<ANY>\"" then (fun n nm => (attr n nm).bind (fun v => if v == "\"<VER>\"" then none else some value))
         else if value == "\"<NAN>\"" then (fun _ _ => none)     -- a value that does not equal itself selects nothing
         else attr
       ms := ms.push (searchResJ labsJ (Search.findallByAttr attr value name m mn mx s))
@@ -99,7 +100,7 @@ def runSearch (j : Json) : R (Json × Json) := do
       let name ← getStr q "name"
       let value := (← getField q "value").compress
       let attr : Tree Nat → String → Option String :=
-        if value == "\"<ANY>\"" then (fun n nm => (attr n nm).map (fun _ => value))
+        if value == "\"<ANY>\"" then (fun n nm => (attr n nm).bind (fun v => if v == "\"<VER>\"" then none else some value))
         else if value == "\"<NAN>\"" then (fun _ _ => none)     -- a value that does not equal itself selects nothing
         else attr
       ms := ms.push (searchResJ optJ' (Search.findByAttr attr value name m s))
